@@ -2111,15 +2111,25 @@ fn diverged_header_chain_lookups(run: &Run, dir: &str, n_variants: u64) {
 			run.count("diverged_header_chain.states_where_the_header_chain_covers_the_body_height", 1);
 		}
 		for b in &body {
-			for k in b.block.kernels() {
+			let bh = b.block.header.height;
+			let top = n_trunk + a_len;
+			// the height bounds a wallet passes (none / around the block / the whole chain / one height off)
+			let bounds: [(Option<u64>, Option<u64>); 6] =
+				[(None, None), (Some(bh), None), (None, Some(bh)), (Some(bh), Some(bh)), (Some(bh.saturating_sub(1)), Some((bh + 1).min(top))), (Some(1), Some(top))];
+			for (ki, k) in b.block.kernels().iter().enumerate() {
+				let (lo, hi) = bounds[(ki + bh as usize + v as usize) % bounds.len()];
+				let (lo, hi) = if ki == b.block.kernels().len() - 1 && v % 2 == 0 { (None, None) } else { (lo, hi) };
 				let (tx, rx) = mpsc::channel();
 				let c2 = chain.clone();
 				let ex = k.excess;
 				std::thread::spawn(move || {
 					init_thread(true);
-					let r = catch(|| c2.get_kernel_height(&ex, None, None));
+					let r = catch(|| c2.get_kernel_height(&ex, lo, hi));
 					let _ = tx.send(r);
 				});
+				if lo.is_some() || hi.is_some() {
+					run.count("diverged_header_chain.kernel_lookups_with_height_bounds", 1);
+				}
 				let mut got = rx.recv_timeout(Duration::from_secs(30));
 				if got.is_err() {
 					run.count("diverged_header_chain.lookup_slower_than_30s", 1);
@@ -2135,7 +2145,7 @@ fn diverged_header_chain_lookups(run: &Run, dir: &str, n_variants: u64) {
 								 header head at height {} on a header-only fork of coinbase-only blocks forking at height {}; kernel of the block at height {}",
 								ex, n_trunk + a_len, n_trunk + b_len, n_trunk, b.block.header.height
 							),
-							json!({"variant": v, "seed": seed, "trunk": n_trunk, "body_fork_len": a_len, "header_fork_len": b_len, "kernel_of_height": b.block.header.height,
+							json!({"variant": v, "seed": seed, "trunk": n_trunk, "body_fork_len": a_len, "header_fork_len": b_len, "kernel_of_height": b.block.header.height, "min_height": lo, "max_height": hi,
 								"reproduce": "blocks trunk+A through process_block, headers of B through process_block_header, then get_kernel_height(excess, None, None)"}),
 						);
 						// the helper thread still holds the header MMR lock: leave the chain alone
